@@ -407,7 +407,7 @@ type c13Env struct {
 	rndLog  []c13Ev
 	copyCol bool // a callback received a *column that is none of the table's columns
 
-	handles []c13Handle                       // column handles taken by hcol operations
+	handles []c13Handle                      // column handles taken by hcol operations
 	objs    map[int]tabular.PropertyCallback // callback object of each id
 	twins   map[*c13Twin]c13TwinInfo
 }
@@ -1379,9 +1379,14 @@ func c13RandHistory(r *RNG, maxOps, maxRegs int) C13Spec {
 	n := 1 + r.Intn(maxOps)
 	for i := 0; i < n; i++ {
 		var o C13Op
-		switch k := r.Intn(12); {
+		switch k := r.Intn(13); {
+		case k == 12:
+			o = C13Op{K: "hcol", N: r.Intn(s.ncols + 1)}
 		case k < 2:
 			o = opN("items", r.Intn(4))
+			if r.Pct(12) {
+				o.N = 9 + r.Intn(5) // past the column capacity
+			}
 		case k == 2:
 			o = opK("newrow")
 		case k == 3 || k == 4:
@@ -1438,6 +1443,18 @@ func c13RandHistory(r *RNG, maxOps, maxRegs int) C13Spec {
 			}
 			nreg++
 			o = c13RegOp(c, in, nreg)
+			o.Kind = pick(r, []string{"", "", "twin", "twin", "val"})
+			o.Fail = r.Pct(25)
+			if nreg > 1 && r.Pct(15) { // an earlier callback object again
+				o.CB = 1 + r.Intn(nreg-1)
+			}
+			if c.owner == "column" && r.Pct(40) { // through a handle taken earlier, if there is one for this column
+				for h, n := range s.handles {
+					if n == in.n {
+						o.H = h + 1
+					}
+				}
+			}
 		}
 		if !s.wf(o) {
 			continue
@@ -1528,6 +1545,9 @@ func c13Gen(r *RNG, tier string) []json.RawMessage {
 			}
 		}
 	}
+	c13GenEqual(r, tier, add)
+	c13GenHandles(r, tier, add)
+	c13GenFailing(r, tier, add)
 	// random histories
 	n := 400
 	if tier == "thorough" {
@@ -1537,6 +1557,196 @@ func c13Gen(r *RNG, tier string) []json.RawMessage {
 		out = append(out, mustJSON(c13RandHistory(r, 12, 4)))
 	}
 	return out
+}
+
+// c13Fires: does the history expect at least one invocation (one render pass)
+func c13Fires(ops []C13Op) bool {
+	s := newC13Sim()
+	for _, o := range ops {
+		if !s.wf(o) {
+			return false
+		}
+		s.step(o)
+	}
+	return len(s.add)+len(s.renderPass()) > 0
+}
+
+func c13Alias(owner, target string) string {
+	switch {
+	case owner == "row" && target == "itself":
+		return "row"
+	case owner == "row" && target == "row":
+		return "itself"
+	case owner == "cell" && target == "itself":
+		return "cell"
+	case owner == "cell" && target == "cell":
+		return "itself"
+	}
+	return target
+}
+
+// Equal callbacks in one slot: two distinct callback objects with equal
+// contents, the same object twice, two equal values - on every combination
+// that can fire, registered next to each other and apart.  One invocation per
+// registration is expected whatever the callbacks' contents.
+func c13GenEqual(r *RNG, tier string, add func([]C13Op)) {
+	for _, shape := range c13Shapes {
+		for _, c := range c13Combos() {
+			ins := c13Instances(shape, c.owner)
+			if tier != "thorough" && len(ins) > 2 {
+				ins = []c13Inst{ins[0], ins[len(ins)-1]}
+			}
+			for _, in := range ins {
+				first := c13RegOp(c, in, 1)
+				if !c13Fires(c13Insert(shape, in.since, first)) {
+					continue
+				}
+				mk := func(kind string, cb int, target string) C13Op {
+					o := c13RegOp(c, in, cb)
+					o.Kind, o.Target = kind, target
+					return o
+				}
+				variants := [][2]C13Op{
+					{mk("twin", 1, c.target), mk("twin", 2, c.target)}, // distinct objects, equal contents
+					{mk("", 1, c.target), mk("", 1, c.target)},         // the same object twice
+					{mk("val", 1, c.target), mk("val", 1, c.target)},   // two equal values
+					{mk("twin", 1, c.target), mk("", 2, c.target)},     // different contents (control)
+				}
+				if a := c13Alias(c.owner, c.target); a != c.target {
+					variants = append(variants, [2]C13Op{mk("twin", 1, c.target), mk("twin", 2, a)})
+				}
+				for k, v := range variants {
+					if k%2 == 0 || in.since == len(shape) {
+						add(c13Insert(shape, in.since, v[0], v[1]))
+					} else {
+						add(c13Insert(c13Insert(shape, len(shape), v[1]), in.since, v[0]))
+					}
+				}
+			}
+		}
+	}
+}
+
+// Column handles: t.Column(n) taken while the table is narrow, the table
+// widened to 9 / 10 / 12 columns in four ways, column callbacks registered
+// through the old handle before and after the growth and through a fresh
+// handle after it; a further row is added afterwards so that add-time column
+// callbacks have something to fire on.
+func c13GenHandles(r *RNG, tier string, add func([]C13Op)) {
+	colCombos := []c13Combo{{"column", "pre", "itself"}, {"column", "post", "itself"}, {"column", "add", "cell"},
+		{"column", "pre", "cell"}, {"column", "post", "cell"}}
+	widths := []int{10, 12}
+	if tier == "thorough" {
+		widths = []int{9, 10, 11, 12, 25}
+		colCombos = nil
+		for _, c := range c13Combos() {
+			if c.owner == "column" {
+				colCombos = append(colCombos, c)
+			}
+		}
+	}
+	widen := func(method, w, nextID int) []C13Op {
+		switch method {
+		case 0:
+			return []C13Op{opN("items", w)}
+		case 1:
+			return []C13Op{opN("headers", w)}
+		case 2:
+			ops := []C13Op{opK("append")}
+			for i := 0; i < w; i++ {
+				ops = append(ops, opR("rowadd", nextID))
+			}
+			return ops
+		}
+		ops := []C13Op{opK("newrow")}
+		for i := 0; i < w; i++ {
+			ops = append(ops, opR("rowadd", nextID))
+		}
+		return append(ops, opR("addrow", nextID))
+	}
+	for method := 0; method < 4; method++ {
+		for _, w := range widths {
+			for col := 0; col <= 2; col++ {
+				for _, c := range colCombos {
+					reg := func(cb, h int, kind string) C13Op {
+						return C13Op{K: "reg", Owner: "column", Time: c.time, Target: c.target, N: col, CB: cb, H: h, Kind: kind}
+					}
+					base := []C13Op{opN("items", 2), {K: "hcol", N: col}}
+					tail := []C13Op{opN("items", 3)}
+					cat := func(parts ...[]C13Op) []C13Op {
+						var out []C13Op
+						for _, p := range parts {
+							out = append(out, p...)
+						}
+						return out
+					}
+					wd := widen(method, w, 1)
+					add(cat(base, []C13Op{reg(1, 1, "")}, wd, tail))                                                // through the handle, before the growth
+					add(cat(base, wd, []C13Op{reg(1, 1, "")}, tail))                                                // through the old handle, after the growth
+					add(cat(base, wd, []C13Op{reg(1, 0, "")}, tail))                                                // through a fresh handle, after the growth
+					add(cat(base, []C13Op{reg(1, 1, "twin")}, wd, []C13Op{reg(2, 1, "twin"), reg(3, 0, "")}, tail)) // all three
+				}
+			}
+		}
+	}
+}
+
+// Callbacks that return an error.  The trace does not depend on what a
+// callback returns: every firing single registration in a failing variant, and
+// every failing pre-cell registration that matches a cell paired with every
+// registration that fires later (or in the same phase) for that cell, its row,
+// its column or the table, in both registration orders.
+func c13GenFailing(r *RNG, tier string, add func([]C13Op)) {
+	for _, shape := range c13Shapes {
+		for _, c := range c13Combos() {
+			for _, in := range c13Instances(shape, c.owner) {
+				o := c13RegOp(c, in, 1)
+				o.Fail = true
+				ops := c13Insert(shape, in.since, o)
+				if c13Fires(ops) {
+					add(ops)
+				}
+			}
+		}
+		cells := c13Instances(shape, "cell")
+		if tier != "thorough" && len(cells) > 2 {
+			cells = []c13Inst{cells[0], cells[len(cells)-1]}
+		}
+		failTimes := []string{"pre"}
+		if tier == "thorough" {
+			failTimes = []string{"add", "pre", "render", "post"}
+		}
+		for _, cell := range cells {
+			row, col := cell.r, cell.n
+			owners := []C13Op{
+				{K: "reg", Owner: "table", Target: "cell"},
+				{K: "reg", Owner: "column", N: col, Target: "cell"},
+				{K: "reg", Owner: "row", R: row, Target: "cell"},
+				{K: "reg", Owner: "cell", R: row, N: col, Target: "itself"},
+				{K: "reg", Owner: "cell", R: row, N: col, Target: "cell"},
+				{K: "reg", Owner: "row", R: row, Target: "itself"},
+				{K: "reg", Owner: "column", N: col, Target: "itself"},
+				{K: "reg", Owner: "table", Target: "itself"},
+			}
+			for _, ft := range failTimes {
+				for _, f := range owners[:3] {
+					f.Time, f.Fail, f.CB = ft, true, 1
+					for _, g := range owners {
+						for _, gt := range []string{"pre", "render", "post"} {
+							g.Time, g.CB = gt, 2
+							g.Fail = false
+							both := append(append([]C13Op{}, shape...), f, g)
+							if !c13WF(both) || !c13Fires(append(append([]C13Op{}, shape...), g)) || !c13Fires(append(append([]C13Op{}, shape...), f)) {
+								continue
+							}
+							add(both)
+							add(append(append([]C13Op{}, shape...), g, f))
+						}
+					}
+				}
+			}
+		}
+	}
 }
 
 // ---------------------------------------------------------------- shrinking
